@@ -91,6 +91,9 @@ known("C18", "float-special-values-zero-pad-alt", "inf/nan with zero padding, '=
 known("C18", "n-type-handling", "type 'n' differs (accept/reject or text)", "format(1.5, 'n')")
 known("C18", "int-precision-not-rejected", "a precision on an integer presentation type is not rejected", "format(1, '.2d')")
 known("C18", "leading-conversion-accepted-in-format-spec", "FormatSpec::parse accepts a leading '!x' conversion inside the specification text; Python's format() rejects it", "format(1, '!b')")
+known("C18", "char-conversion-of-surrogate-code-point-is-an-error", "type 'c' with an integer in U+D800..U+DFFF returns CodeNotInRange: Python returns a lone surrogate, which a Rust String cannot hold (before 175e5de this panicked)", "format(0xD800, 'c')")
+known("C18", "float-no-type-shortest-repr-tie-broken-differently", "a float without type and precision is rendered with Rust's shortest round-trip digits; where two equally short digit strings round-trip, Python's repr picks the one nearer the exact value and the crate may pick the other", "format(915724668195213.2, '')")
+fixed("C18", "unlisted:panic", "175e5de", "FormatSpec::format_int with type 'c' panicked (char::from_u32(..).unwrap()) for integers in the surrogate range U+D800..U+DFFF", "format(0xD800, 'c')")
 known("C18", "int-with-float-type", "an integer formatted with a float presentation type differs", "format(10**30, 'e')")
 
 # ---------------------------------------------------------------- C19
